@@ -69,14 +69,15 @@ const (
 
 // balloons contains configuration and runtime attributes of the balloons policy
 type balloons struct {
-	options   *policy.BackendOptions // configuration common to all policies
-	bpoptions *BalloonsOptions       // balloons-specific configuration
-	cch       cache.Cache            // nri-resource-policy cache
-	allowed   cpuset.CPUSet          // bounding set of CPUs we're allowed to use
-	reserved  cpuset.CPUSet          // system-/kube-reserved CPUs
-	freeCpus  cpuset.CPUSet          // CPUs to be included in growing or new ballons
-	ifreeCpus cpuset.CPUSet          // initially free CPUs before assigning any containers
-	cpuTree   *cpuTreeNode           // system CPU topology
+	options    *policy.BackendOptions // configuration common to all policies
+	bpoptions  *BalloonsOptions       // balloons-specific configuration
+	cfgoptions *BalloonsOptions       // configuration as given, before filling in defaults and built-in balloon types
+	cch        cache.Cache            // nri-resource-policy cache
+	allowed    cpuset.CPUSet          // bounding set of CPUs we're allowed to use
+	reserved   cpuset.CPUSet          // system-/kube-reserved CPUs
+	freeCpus   cpuset.CPUSet          // CPUs to be included in growing or new ballons
+	ifreeCpus  cpuset.CPUSet          // initially free CPUs before assigning any containers
+	cpuTree    *cpuTreeNode           // system CPU topology
 
 	reservedBalloonDef *BalloonDef // reserved balloon definition, pointer to bpoptions.BalloonDefs[x]
 	defaultBalloonDef  *BalloonDef // default balloon definition, pointer to bpoptions.BalloonDefs[y]
@@ -1238,8 +1239,8 @@ func (p *balloons) Reconfigure(newCfg interface{}) error {
 		log.Debug("effective configuration:\n%s\n", utils.DumpJSON(p.bpoptions))
 	}()
 	newBalloonsOptions := balloonsOptions.DeepCopy()
-	if !changesBalloons(p.bpoptions, newBalloonsOptions) {
-		if !changesCpuClasses(p.bpoptions, newBalloonsOptions) {
+	if !changesBalloons(p.cfgoptions, newBalloonsOptions) {
+		if !changesCpuClasses(p.cfgoptions, newBalloonsOptions) {
 			log.Info("no configuration changes")
 		} else {
 			log.Info("configuration changes only on CPU classes")
@@ -1248,9 +1249,13 @@ func (p *balloons) Reconfigure(newCfg interface{}) error {
 			// must be kept in use, because each Balloon
 			// instance holds a direct reference to its
 			// BalloonDef.
-			for i := range p.bpoptions.BalloonDefs {
-				p.bpoptions.BalloonDefs[i].CpuClass = newBalloonsOptions.BalloonDefs[i].CpuClass
+			for _, newDef := range newBalloonsOptions.BalloonDefs {
+				if blnDef := p.balloonDefByName(newDef.Name); blnDef != nil {
+					blnDef.CpuClass = newDef.CpuClass
+				}
 			}
+			p.bpoptions.IdleCpuClass = newBalloonsOptions.IdleCpuClass
+			p.cfgoptions = newBalloonsOptions.DeepCopy()
 			// (Re)configures all CPUs in balloons.
 			if err := p.resetCpuClass(); err != nil {
 				log.Warnf("failed to reset CPU class: %v", err)
@@ -1268,7 +1273,14 @@ func (p *balloons) Reconfigure(newCfg interface{}) error {
 		return err
 	}
 	log.Info("config updated successfully")
-	if err := p.Sync(p.cch.GetContainers(), p.cch.GetContainers()); err != nil {
+	live := []cache.Container{}
+	for _, c := range p.cch.GetContainers() {
+		switch c.GetState() {
+		case cache.ContainerStateCreated, cache.ContainerStateRunning:
+			live = append(live, c)
+		}
+	}
+	if err := p.Sync(live, p.cch.GetContainers()); err != nil {
 		log.Warnf("failed to sync containers: %v", err)
 	}
 	return nil
@@ -1347,6 +1359,7 @@ func (p *balloons) validateConfig(bpoptions *BalloonsOptions) error {
 
 // setConfig takes new balloon configuration into use.
 func (p *balloons) setConfig(bpoptions *BalloonsOptions) error {
+	cfgoptions := bpoptions.DeepCopy()
 	bpoptions = bpoptions.DeepCopy()
 
 	// Handle AvailableResources.cpus, if defined.
@@ -1389,6 +1402,7 @@ func (p *balloons) setConfig(bpoptions *BalloonsOptions) error {
 	p.balloons = []*Balloon{}
 	p.freeCpus = p.allowed.Clone()
 	p.bpoptions = bpoptions
+	p.cfgoptions = cfgoptions
 
 	// Create balloon instances in the order of AllocatorPriority.
 	for allocPrio := cpuallocator.CPUPriority(0); allocPrio <= cpuallocator.NumCPUPriorities; allocPrio++ {
